@@ -493,3 +493,216 @@ def unit_close():
         return {"contract": close_contract(), "callees": {"abs:Check.check_at_end": AbsContract(m_check_at_end), "abs:Check.cleanup": AbsContract(m_cleanup)}, "spec_functions": {"end_ok": sf_end_ok},
                 "assumptions": ["checks are abstract plug-ins: check_at_end raises only CheckError (verdict end_ok), cleanup does not raise; check_map.values() lists the checks in declaration order (dict insertion order, Python >= 3.7)"]}
     return ProofUnit("validio.BaseValidator.close", "close(): end verdicts once in declaration order, cleanup for every check (finally), idempotent after success", ["C20", "C05", "C08"], make, CloseOracle())
+
+
+# =====================================================================================================================
+# Writer: __init__ (fresh checks), write_row (validate first, pad, delegate), _padded_fixed_row (C14 C08 C20)
+# =====================================================================================================================
+FNL = Tup(STR, INT)
+
+
+def m_new_row_writer(cls_name):
+    def m(ex, st, info, args, kw):
+        w = Ref(cls_name); loc = Ref("Location")
+        st.heap[loc.oid] = {"file_path": "<io>", "_line": 0, "_column": 0, "_cell": 0, "_sheet": 0, "_has_column": False, "_has_cell": True, "_has_sheet": False}
+        st.heap[w.oid] = {"_location": loc, "_data_format": args[1]}
+        st.ghost["delegated"] = w; st.ghost["writer_args"] = list(args)
+        yield st, w
+    return m
+
+
+def m_field_names_and_lengths(ex, st, fn, args, kw):
+    yield st, st.ghost["fnl"]
+
+
+def setup_writer_init(fmt):
+    def setup(ex, st):
+        m = fresh(INT, "m")[0]; st.pc.append(m.z >= 0)
+        checks, c2 = fresh(UFList(CHECK), "checks"); st.pc.extend(c2); st.pc.append(checks.length == m.z)
+        i = z3.Int("i"); cio = ex.absfun_s("check_index_of", [sort_of(CHECK)], z3.IntSort())
+        st.pc.append(z3.ForAll([i], z3.Implies(z3.And(i >= 0, i < m.z), cio(checks.at(i)) == i)))
+        fields, c1 = fresh(UFList(FIELD), "fields"); st.pc.extend(c1)
+        fnl, c3 = fresh(UFList(FNL), "fnl"); st.pc.extend(c3)
+        df = Ref("DataFormat"); st.heap[df.oid] = {"_format": fmt, "_is_valid": True, "_header": fresh(INT, "header")[0]}
+        cid = Ref("Cid"); st.heap[cid.oid] = {"_data_format": df, "_field_formats": fields, "_check_name_to_check_map": UFMap(STR, CHECK, None, values=checks)}
+        self = Ref("Writer"); st.heap[self.oid] = {}
+        st.frames[-1].env.update({"self": self, "cid_or_path": cid, "target": Ref("Target")})
+        st.ghost.update({"m": m, "resets_done": 0, "this": self, "fnl": fnl, "cid": cid, "delegated": None})
+    return setup
+
+
+def writer_init_contract(fmt):
+    supported = fmt in ("delimited", "fixed")
+    cls = {"delimited": "DelimitedRowWriter", "fixed": "FixedRowWriter"}.get(fmt)
+    def delegated_ok(ex, st):
+        w = st.heap[st.ghost["this"].oid].get("_delegated_writer")
+        return Sym(BOOL, z3.BoolVal(isinstance(w, Ref) and w.cls == cls and w == st.ghost["delegated"]))
+    return Contract("validio.Writer.__init__", setup_writer_init(fmt),
+        returns=[Clause("resets_done == m", "every-check-of-the-cid-is-reset-before-the-first-row-is-written", props=["C08", "C14", "C20"]),
+                 Clause(delegated_ok, "rows-are-delegated-to-the-writer-of-the-cid's-format", props=["C14"]),
+                 Clause("this._cid is cid and this._is_closed == False", "bound-to-the-given-cid", props=["C14"])] if supported else [Clause("False", "unsupported-format-has-no-writer")],
+        raises={} if supported else {"NotImplementedError": []},
+        loops={0: LoopSpec(invariants=["resets_done == _i0"], havoc={"check": CHECK}, ghost_havoc={"resets_done": INT})},
+        expect=["return"] if supported else ["NotImplementedError"], n_loops=1)
+
+
+def unit_writer_init():
+    def make(ctx):
+        return [{"contract": writer_init_contract(f), "label": "format " + f,
+                 "callees": {"class:DelimitedRowWriter": m_new_row_writer("DelimitedRowWriter"), "class:FixedRowWriter": m_new_row_writer("FixedRowWriter"),
+                             "interface.field_names_and_lengths": ModelContract(m_field_names_and_lengths), "abs:Check.reset": AbsContract(m_reset)},
+                 "assumptions": ["the row writers' constructors are used through their contracts (rowio units); reset() of a check is abstract and protocol-monitored"]} for f in ("delimited", "fixed", "excel")]
+    return ProofUnit("validio.Writer.__init__", "Writer.__init__: all checks reset once in order, delegated writer of the right kind", ["C08", "C14", "C20"], make, None)
+
+
+# ---- write_row
+def m_w_validate_row(ex, st, fn, args, kw):
+    st.ghost["validate_calls"] = Sym(INT, G(st, "validate_calls") + 1)
+    ex.obligations.append(Obligation("validate_row-receives-the-row-to-write", st.pc, z3.BoolVal(args[0] is st.ghost["row"]), "protocol", props=["C14"]))
+    ex.obligations.append(Obligation("validate_row-before-anything-is-written", st.pc, G(st, "writes") == 0, "protocol", props=["C14"]))
+    okz = st.ghost["row_ok"].z
+    for s2, b in ex.fork(st, Sym(BOOL, okz)):
+        if b: yield s2, None
+        else: yield from raise_new(ex, s2, "DataError")
+
+
+def m_padded(ex, st, fn, args, kw):
+    st.ghost["padded_from"] = args[0]; p, c = fresh(UFList(STR), "padded"); st.pc.extend(c); st.ghost["padded"] = p; yield st, p
+
+
+def m_delegate_write_row(ex, st, recv, args, kw):
+    st.ghost["writes"] = Sym(INT, G(st, "writes") + 1); st.ghost["written"] = args[0]
+    loc = st.heap[recv.oid]["_location"]; st.heap[loc.oid]["_line"] = Sym(INT, lift(st.heap[loc.oid]["_line"]).z + 1)
+    fail = fresh(BOOL, "encode_error")[0]
+    for s2, b in ex.fork(st, fail):
+        if b: yield from raise_new(ex, s2, "DataFormatError")
+        else: yield s2, None
+
+
+def setup_write_row(fmt):
+    def setup(ex, st):
+        row, c = fresh(UFList(STR), "row"); st.pc.extend(c)
+        header = fresh(INT, "header")[0]; line0 = fresh(INT, "line0")[0]; st.pc.extend([header.z >= 0, line0.z >= 0])
+        loc = Ref("Location"); st.heap[loc.oid] = {"file_path": "<io>", "_line": line0, "_column": 0, "_cell": 0, "_sheet": 0, "_has_column": False, "_has_cell": True, "_has_sheet": False}
+        w = Ref("FixedRowWriter" if fmt == "fixed" else "DelimitedRowWriter"); st.heap[w.oid] = {"_location": loc}
+        df = Ref("DataFormat"); st.heap[df.oid] = {"_format": fmt, "_is_valid": True, "_header": header}
+        cid = Ref("Cid"); st.heap[cid.oid] = {"_data_format": df}
+        self = Ref("Writer"); st.heap[self.oid] = {"_cid": cid, "_header": header, "_delegated_writer": w, "_is_closed": False}
+        st.frames[-1].env.update({"self": self, "row_to_write": row})
+        st.ghost.update({"row": row, "header": header, "line0": line0, "loc": loc, "writes": 0, "validate_calls": 0, "row_ok": fresh(BOOL, "row_ok")[0], "written": None, "padded": None, "padded_from": None, "this": self})
+    return setup
+
+
+def write_row_contract(fmt):
+    def wrote_expected(ex, st):
+        w = st.ghost["written"]
+        if fmt == "fixed": return Sym(BOOL, z3.BoolVal(w is not None and w is st.ghost["padded"] and st.ghost["padded_from"] is st.ghost["row"]))
+        return Sym(BOOL, z3.BoolVal(w is st.ghost["row"]))
+    return Contract("validio.Writer.write_row", setup_write_row(fmt),
+        returns=[Clause("writes == 1", "an-accepted-row-is-emitted-exactly-once", props=["C14"]),
+                 Clause(wrote_expected, "what-is-emitted-is-the-row-(fixed:-the-padded-row)", props=["C14"]),
+                 Clause("implies(line0 >= header, validate_calls == 1 and row_ok)", "beyond-the-header-only-validated-rows-are-emitted", props=["C14", "C20"]),
+                 Clause("implies(line0 < header, validate_calls == 0)", "header-rows-are-written-unvalidated", props=["C14", "C20"])],
+        raises={"DataError": [Clause("(line0 >= header and validate_calls == 1 and not row_ok and writes == 0 and loc._line == line0) or (writes == 1)", "a-rejected-row-emits-nothing-and-leaves-the-writer-where-it-was", props=["C14"])]},
+        expect=["return", "DataError"], n_loops=0, modifies=["Location._line"])
+
+
+def unit_writer_write_row():
+    def make(ctx):
+        return [{"contract": write_row_contract(f), "label": "format " + f,
+                 "callees": {"validio.BaseValidator.validate_row": ModelContract(m_w_validate_row), "validio.Writer._padded_fixed_row": ModelContract(m_padded),
+                             "ref:FixedRowWriter.write_row": m_delegate_write_row, "ref:DelimitedRowWriter.write_row": m_delegate_write_row},
+                 "assumptions": ["callee contracts: validate_row (verified), _padded_fixed_row (verified below), the delegated writer's write_row (rowio units): writes one row, advances its location, raises only DataFormatError"]} for f in ("delimited", "fixed")]
+    return ProofUnit("validio.Writer.write_row", "Writer.write_row: validate first; nothing emitted and position unchanged on rejection; padded row for fixed", ["C14", "C20"], make, None)
+
+
+# ---- _padded_fixed_row
+def pad_z(ex, v, w):
+    rep = ex.absfun_s("str_repeat", [z3.StringSort(), z3.IntSort()], z3.StringSort())(z3.StringVal(" "), w - z3.Length(v))
+    return z3.If(z3.Length(v) < w, z3.Concat(v, rep), v)
+
+
+def unit_padded_fixed_row():
+    def setup(ex, st):
+        n = fresh(INT, "n")[0]; st.pc.append(n.z >= 0)
+        row, c = fresh(UFList(STR), "row"); fnl, c2 = fresh(UFList(FNL), "fnl"); fields, c3 = fresh(UFList(FIELD), "fields"); st.pc.extend(c + c2 + c3)
+        st.pc.extend([fnl.length == n.z, fields.length == n.z])
+        cid = Ref("Cid"); st.heap[cid.oid] = {"_field_formats": fields}
+        self = Ref("Writer"); st.heap[self.oid] = {"_cid": cid, "_field_names_and_lengths": fnl}
+        st.frames[-1].env.update({"self": self, "row": row}); st.ghost.update({"row": row, "fnl": fnl, "n": n})
+    def padded_upto(ex, st, res, k):
+        kk = lift(k).z; row = st.ghost["row"]; fnl = st.ghost["fnl"]; j = z3.Int("j!pd"); W = sort_of(FNL).accessor(0, 1)
+        if isinstance(res, list): return Sym(BOOL, z3.And(z3.BoolVal(len(res) == 0), kk == 0))
+        return Sym(BOOL, z3.And(res.length == kk, z3.ForAll([j], z3.Implies(z3.And(0 <= j, j < kk), res.at(j) == pad_z(ex, row.at(j), W(fnl.at(j)))))))
+    def make(ctx):
+        return {"contract": Contract("validio.Writer._padded_fixed_row", setup, requires=["len(row) == n"],
+                    returns=[Clause("padded_upto(result, n)", "every-item-right-padded-with-blanks-to-its-field-width-nothing-else-changed", props=["C14"])],
+                    raises={}, loops={0: LoopSpec(invariants=["padded_upto(result, _i0)"], havoc={"result": UFList(STR), "field_index": INT, "field_value": STR, "field_value_length": INT, "_": STR, "fixed_field_length": INT})},
+                    expect=["return"], n_loops=1, modifies=[]),
+                "spec_functions": {"padded_upto": padded_upto},
+                "assumptions": ["A-STR: ' ' * k is a string of k blanks (uninterpreted repetition with its length)"]}
+    return ProofUnit("validio.Writer._padded_fixed_row", "_padded_fixed_row: item i becomes item + blanks up to the field width", ["C14"], make, None)
+
+
+# ---- native side for the writer: write rows, read them back
+class WriterOracle(Oracle):
+    quick_cases = 3000
+    bound = "sequences of 0-4 rows (0-6 thorough) from a pool of accepted / field-rejected / wrong-count / duplicate rows x {delimited, fixed} x header 0-1, read back under the same CID; writer used after an earlier read with the same CID"
+    POOL = [["1", "ab"], ["2", "c"], ["1", "zz"], ["x", "ab"], ["3"], ["4", "ab", "q"], ["5", "toolong"], ["6", ""]]
+    def cases(self, ctx):
+        k = 0
+        for fmt in ("delimited", "fixed"):
+            for header in (0, 1):
+                for n in range(0, 7 if ctx.thorough else 5):
+                    for rows in itertools.product(range(len(self.POOL)), repeat=n):
+                        k += 1
+                        if n >= 3 and k % (3 if ctx.thorough else 11): continue
+                        yield (fmt, header, list(rows))
+    def cid(self, fmt, header):
+        from cutplace import interface
+        if fmt == "delimited": text = "d,format,delimited\nd,header,%d\nf,id,,,1...3,Integer\nf,name,,x,...3\nc,u,IsUnique,id\n" % header
+        else: text = "d,format,fixed\nd,header,%d\nd,line delimiter,lf\nf,id,,,3,Integer\nf,name,,x,3\nc,u,IsUnique,id\n" % header
+        return interface.create_cid_from_string(text)
+    def check(self, c):
+        from cutplace import validio, errors
+        fmt, header, idx = c
+        cid = self.cid(fmt, header)
+        list(validio.rows(cid, io.StringIO("1,ab\n" if fmt == "delimited" and header == 0 else ""), on_error="continue"))   # earlier use of the same CID must not matter (C08)
+        out = io.StringIO(); w = validio.Writer(cid, out)
+        accepted = []; seen = set(); pos = 0
+        for i in idx:
+            row = self.POOL[i]; is_header = pos < header
+            def good(r):
+                if len(r) != 2: return False
+                try: v = int(r[0])
+                except ValueError: return False
+                return len(r[0]) <= 3 and len(r[1]) <= 3 and r[0].strip() != "" and r[0] not in seen
+            exp_ok = True if is_header else good(row)
+            if is_header and (len(row) != 2 or (fmt == "fixed" and any(len(x) > 3 for x in row))): continue   # ill-shaped header rows are the caller's business
+            before = out.getvalue()
+            try: w.write_row(list(row)); obs = True
+            except errors.DataError: obs = False
+            except Exception as e: return {"expected": "write or DataError", "observed": repr(e)}
+            if obs != exp_ok: return {"expected": "row %r %s" % (row, "written" if exp_ok else "rejected"), "observed": "written" if obs else "rejected"}
+            if not obs and out.getvalue() != before: return {"expected": "nothing emitted for a rejected row", "observed": repr(out.getvalue()[len(before):])}
+            if obs:
+                pos += 1
+                if not is_header: seen.add(row[0]); accepted.append(row)
+                exp_text = (",".join(row) + "\r\n") if fmt == "delimited" else ("".join(x.ljust(3) for x in row) + "\n")
+                if out.getvalue() != before + exp_text: return {"expected": repr(exp_text), "observed": repr(out.getvalue()[len(before):])}
+        try: w.close()
+        except errors.DataError as e: return {"expected": "close without error", "observed": repr(e)}
+        # read back under a freshly loaded CID
+        try: back = list(validio.rows(self.cid(fmt, header), io.StringIO(out.getvalue())))
+        except errors.DataError as e: return {"expected": "output validates again", "observed": "%s (text %r)" % (e, out.getvalue())}
+        want = [[x.ljust(3) for x in r] for r in accepted] if fmt == "fixed" else accepted
+        return None if back == want else {"expected": want, "observed": back}
+    def describe(self, c): return {"format": c[0], "header": c[1], "rows": [self.POOL[i] for i in c[2]], "call": "validio.Writer(cid, StringIO).write_row(...) per row, close(), then validio.rows(cid, output)"}
+
+
+def unit_writer_sweep():
+    def run(ctx):
+        o = WriterOracle()
+        limit = 10**9 if ctx.thorough else o.quick_cases
+        return [sweep("C14/sweep/write then read back", itertools.islice(o.cases(ctx), limit), o.check, "bounded", o.bound, describe=o.describe, function="validio.Writer + rowio writers + validio.rows", unit="C14.sweep")]
+    return NativeUnit("C14.sweep", "bounded sweep: Writer emits exactly the accepted rows, nothing for rejected ones, output validates again (incl. after an earlier read with the same CID)", ["C14", "C08"], run, kind="bounded")
